@@ -1,5 +1,9 @@
 import SJ.Model.Marshal
 import SJ.Model.Stage2
+import SJ.Model.Walk
+import SJ.Model.WF
+import SJ.Model.Serialize
+import SJ.Spec.Json
 import Std.Data.HashMap
 /-
 Line-protocol driver over the executable model (core Lean only).
@@ -68,6 +72,55 @@ partial def ivalStr : IVal → String
   | .obj l =>
     let l' := l.toArray.qsort (fun a b => hex a.1 < hex b.1)
     "{" ++ ",".intercalate (l'.toList.map (fun p => s!"{hex p.1}:{ivalStr p.2}")) ++ "}"
+
+partial def ovalStr : OVal → String
+  | .null => "null"
+  | .bool b => if b then "true" else "false"
+  | .int i => s!"i{i}"
+  | .uint n => s!"u{n}"
+  | .float b f => if f == 0 then s!"f{hex64 b}" else s!"f{hex64 b}!{f}"
+  | .str s => s!"s{hex s}"
+  | .arr l => "[" ++ ",".intercalate (l.map ovalStr) ++ "]"
+  | .obj l => "{" ++ ",".intercalate (l.map (fun p => s!"{hex p.1}:{ovalStr p.2}")) ++ "}"
+
+def specNumStr : Spec.Num → String
+  | .int z => s!"i{z}"
+  | .uint n => s!"u{n}"
+  | .float b fl => if fl then s!"f{hex64 b}!1" else s!"f{hex64 b}"
+
+/-- ordered rendering of a specification value (same syntax as `ovalStr`) -/
+partial def specOrdStr : Spec.JVal → String
+  | .null => "null"
+  | .bool b => if b then "true" else "false"
+  | .num n => specNumStr n
+  | .str s => s!"s{hex s.toArray}"
+  | .arr l => "[" ++ ",".intercalate (l.map specOrdStr) ++ "]"
+  | .obj l => "{" ++ ",".intercalate (l.map (fun p => s!"{hex p.1.toArray}:{specOrdStr p.2}")) ++ "}"
+
+/-- `Interface()`-style rendering of a specification value: maps (last wins, sorted), no float flags -/
+partial def specIfaceStr : Spec.JVal → String
+  | .null => "null"
+  | .bool b => if b then "true" else "false"
+  | .num (.int z) => s!"i{z}"
+  | .num (.uint n) => s!"u{n}"
+  | .num (.float b _) => s!"f{hex64 b}"
+  | .str s => s!"s{hex s.toArray}"
+  | .arr l => "[" ++ ",".intercalate (l.map specIfaceStr) ++ "]"
+  | .obj l =>
+    let dedup := l.foldl (fun (acc : List (List UInt8 × Spec.JVal)) p => (acc.filter (fun q => q.1 != p.1)) ++ [p]) []
+    let l' := dedup.toArray.qsort (fun a b => hex a.1.toArray < hex b.1.toArray)
+    "{" ++ ",".intercalate (l'.toList.map (fun p => s!"{hex p.1.toArray}:{specIfaceStr p.2}")) ++ "}"
+
+def jsonTrim (b : Bytes) : Bytes :=
+  let l := (b.toList.dropWhile Spec.isWs).reverse.dropWhile Spec.isWs
+  l.reverse.toArray
+
+def specVerdict (nd : Bool) (b : Bytes) : Spec.Verdict :=
+  if trimSpace b != jsonTrim b then .outside
+  else if nd then Spec.ndText b.toList
+  else match Spec.containerText b.toList with
+    | .accept v => .accept (.arr [v])
+    | r => r
 
 structure Store where
   pjs   : HashMap String PJ := {}
@@ -173,6 +226,7 @@ def step (st : Store) (line : String) : Store × String :=
     match v.nextElementBytes pj (fuelOf pj) with
     | .ok (v', none) => ({ st with views := st.views.insert o (pn, v') }, "none")
     | .ok (v', some (name, d, ty)) =>
+      if ty == Generated.typeNone then ({ st with views := st.views.insert o (pn, v') }, "none") else
       ({ st with views := st.views.insert o (pn, v'), iters := st.iters.insert dst (pn, d) }, s!"{hex name} {ty}")
     | r => (st, resStr r (fun _ => ""))
   | ["map", o] => withView o fun _ pj v =>
@@ -297,6 +351,52 @@ def step (st : Store) (line : String) : Store × String :=
     | none => (st, "bad-ref")
     | some pj => ({ st with pjs := st.pjs.insert pn { pj with msg := pj.msg.map (fun _ => 0xff) } }, "ok")
   | ["reset"] => ({}, "ok")
+  | ["wf", pn] =>
+    match st.pjs[pn]? with
+    | none => (st, "bad-ref")
+    | some pj => (st, match decodeTape pj with | some d => "wf " ++ ovalStr (.arr d) | none => "malformed")
+  | ["serde", dst, src] =>
+    match st.pjs[src]? with
+    | none => (st, "bad-ref")
+    | some pj =>
+      let r : Res PJ := do
+        let sec ← serialize pj (fun b => (fnvBytes b).toNat)
+        deserializeSections sec (Array.replicate sec.tapeSize 0)
+      match r with
+      | .ok pj' => ({ st with pjs := st.pjs.insert dst pj' }, s!"ok {pj'.tape.size}")
+      | r => (st, resStr r (fun _ => ""))
+  | ["deser", dst, ts, strs, msg, tags, vals] =>
+    match ts.toNat?, unhex strs, unhex msg, unhex tags, unhex vals with
+    | some n, some s, some m, some t, some v =>
+      match deserializeSections { tapeSize := n, strings := s, msg := m, tags := t, values := v } (Array.replicate n 0) with
+      | .ok pj' => ({ st with pjs := st.pjs.insert dst pj' }, s!"ok {pj'.tape.size} {hex64 (fnvWords pj'.tape)}")
+      | r => (st, resStr r (fun _ => ""))
+    | _, _, _, _, _ => (st, "bad-op")
+  | ["deserraw", dst, blob] =>
+    match unhex blob with
+    | none => (st, "bad-op")
+    | some b =>
+      match deserialize (fun _ _ _ => none) b #[] with
+      | .ok pj' => ({ st with pjs := st.pjs.insert dst pj' }, s!"ok {pj'.tape.size} {hex64 (fnvWords pj'.tape)}")
+      | r => (st, resStr r (fun _ => ""))
+  | ["owalk", pn] =>
+    match st.pjs[pn]? with
+    | none => (st, "bad-ref")
+    | some pj => (st, resStr (owalk pj) (fun l => ovalStr (.arr l)))
+  | ["spec", nd, h] =>
+    match unhex h with
+    | none => (st, "bad-op")
+    | some b => (st, match specVerdict (nd == "1") b with
+        | .accept v => "accept " ++ specOrdStr v
+        | .reject => "reject"
+        | .outside => "outside")
+  | ["speciface", nd, h] =>
+    match unhex h with
+    | none => (st, "bad-op")
+    | some b => (st, match specVerdict (nd == "1") b with
+        | .accept v => "accept " ++ specIfaceStr v
+        | .reject => "reject"
+        | .outside => "outside")
   | ["appendfloat", h] =>
     match unhex h with
     | some b =>
